@@ -406,6 +406,46 @@ FM_HASH_SET = ("if self._hash is None:\n    self._hash = hash(frozenset(self._ma
                "return self._hash")
 
 
+def _self_field_root(e):
+    """`self._f.<attribute / method call / subscript chain>` -> ('_f', [step names]); None otherwise."""
+    steps = []
+    while True:
+        if isinstance(e, ast.Attribute):
+            if _is_self_attr(e):
+                return e.attr, list(reversed(steps))
+            steps.append(e.attr)
+            e = e.value
+        elif isinstance(e, ast.Call) and isinstance(e.func, ast.Attribute) and not e.keywords \
+                and all(isinstance(a, ast.Constant) for a in e.args):
+            steps.append("()")
+            e = e.func
+        elif isinstance(e, ast.Subscript) and isinstance(e.slice, ast.Constant):
+            steps.append("[]")
+            e = e.value
+        else:
+            return None
+
+
+def _digest(e):
+    """frozenset/sorted/tuple/list over an iteration of a field's contents -> (field, mode); None otherwise.
+    frozenset / sorted are order-free: `frozenset(self._g.nodes)` sees the nodes (contentPart), any other
+    order-free digest is taken to see the whole canonical content (content; K checks it).  tuple / list keep the
+    iteration order of the container: orderedContent."""
+    if isinstance(e, ast.Call) and isinstance(e.func, ast.Name) and len(e.args) == 1 and not e.keywords \
+            and e.func.id in ("frozenset", "sorted", "tuple", "list"):
+        r = _self_field_root(e.args[0])
+        if r is None or not r[1]:
+            return None
+        f, steps = r
+        if e.func.id in ("tuple", "list"):
+            return f, "orderedContent"
+        return f, ("contentPart" if steps == ["nodes"] else "content")
+    return None
+
+
+_RANK = {"contentPart": 0, "content": 1, "orderedContent": 2}
+
+
 def analyse_hash(cl, c, fn) -> tuple[dict, bool]:
     """-> ({field: mode}, const)"""
     hashed: dict[str, str] = {}
@@ -423,6 +463,10 @@ def analyse_hash(cl, c, fn) -> tuple[dict, bool]:
                     and ast.unparse(v.test) == f"self.{v.body.args[0].attr} is not None" and ast.unparse(v.orelse) == "None":
                 local[s.targets[0].id] = (v.body.args[0].attr, "content")
                 continue
+        # name = frozenset(self._f.…) / tuple(self._f.…)
+        if isinstance(s, ast.Assign) and len(s.targets) == 1 and isinstance(s.targets[0], ast.Name) and _digest(s.value):
+            local[s.targets[0].id] = _digest(s.value)
+            continue
         raise Refuse(f"{c}.__hash__: unrecognised statement `{ast.unparse(s)[:60]}`")
     r = body[-1]
     if not isinstance(r, ast.Return):
@@ -434,17 +478,22 @@ def analyse_hash(cl, c, fn) -> tuple[dict, bool]:
     def add(f, mode):
         if isinstance(f, tuple):
             raise Refuse(f"{c}.__hash__: hashes computed property {f[1]}")
-        hashed[f] = mode
+        old = hashed.get(f)
+        if old is None or old == mode:
+            hashed[f] = mode
+        elif old in _RANK and mode in _RANK:
+            # several digests of one field: the one that sees most decides (an order-dependent one dominates)
+            hashed[f] = max(old, mode, key=_RANK.get) if "orderedContent" in (old, mode) else "content"
+        else:
+            raise Refuse(f"{c}.__hash__: field {f} hashed in two incompatible ways ({old}, {mode})")
 
     def elt(e):
         if _is_self_attr(e):
             add(_resolve(cl, c, e.attr), "plain")
         elif isinstance(e, ast.Name) and e.id in local:
             add(*local[e.id])
-        elif isinstance(e, ast.Call) and isinstance(e.func, ast.Name) and e.func.id == "frozenset" and len(e.args) == 1 \
-                and isinstance(e.args[0], ast.Attribute) and e.args[0].attr == "nodes" and _is_self_attr(e.args[0].value):
-            # frozenset(self._g.nodes): a digest of a part of the graph's contents
-            add(e.args[0].value.attr, "contentPart")
+        elif _digest(e):
+            add(*_digest(e))
         elif ast.unparse(e) == "super().__hash__()":
             base = next(b for b in cl.bases(c) if b in cl.defs)
             k, m = cl.method(base, "__hash__")
@@ -472,7 +521,10 @@ def analyse_hash(cl, c, fn) -> tuple[dict, bool]:
 
 # ------------------------------------------------------------------ table
 
-def extract():
+def extract(tolerant=False):
+    """-> (table, unhashable).  With `tolerant`, a class whose __eq__/__hash__ has an unrecognised shape does not
+    abort the extraction: its entry carries `refused` (the message) and whatever could be read (fields, kinds, and the
+    method that was understood); `run()` still raises so that the broken obligation is reported."""
     cl = Classes()
     names = []
     unhashable = []
@@ -490,8 +542,15 @@ def extract():
         flds = init_fields(cl, c)
         chain = cl.mro(c)
         kinds = {f: field_kind(cl, table, c, chain, f, rhs, a) for f, rhs, a in flds}
+        refused = []
         if "__eq__" in own:
-            info = analyse_eq(cl, c, cl.method(c, "__eq__", inherit=False)[1])
+            try:
+                info = analyse_eq(cl, c, cl.method(c, "__eq__", inherit=False)[1])
+            except Refuse as e:
+                if not tolerant:
+                    raise
+                refused.append(str(e))
+                info = EqInfo()
         elif "Mapping" in cl.bases(c):
             info = EqInfo()           # collections.abc.Mapping.__eq__: dict(self.items()) == dict(other.items())
             info.inherited = "Mapping"
@@ -511,7 +570,13 @@ def extract():
             else:
                 info = analyse_eq(cl, k, m)
                 info.inherited = k
-        hashed, const = analyse_hash(cl, c, cl.method(c, "__hash__", inherit=False)[1])
+        try:
+            hashed, const = analyse_hash(cl, c, cl.method(c, "__hash__", inherit=False)[1])
+        except Refuse as e:
+            if not tolerant:
+                raise
+            refused.append(str(e))
+            hashed, const = {}, False
         fieldnames = [f for f, _, _ in flds]
         for f in list(info.compared) + list(hashed):
             if f not in fieldnames:
@@ -524,6 +589,7 @@ def extract():
             "identity_shortcut": info.identity_shortcut, "identity_only": info.identity_only,
             "coercing": info.coercing, "inherited_eq": info.inherited, "derived": info.derived, "const_hash": const,
             "fields": [{"name": f, "cmp": info.compared.get(f), "hash": hashed.get(f), "kind": kinds[f]} for f in fieldnames],
+            "refused": "; ".join(refused) or None,
         })
     return out, sorted(unhashable)
 
